@@ -103,19 +103,20 @@ pub fn print_trace(cfg: &LwCfg, si: &ScriptInfo, tr: &Trace) {
     }
 }
 
-pub fn eval_oracles(spec: &LwSpec, tr: &Trace) -> Option<Violation> {
+pub fn eval_oracles(spec: &LwSpec, tr: &Trace) -> Vec<Violation> {
     let (cfg, si, o) = (&spec.cfg, &*spec.script, spec.oracles);
-    if o & O_C01 != 0 { if let Some(v) = oracle_c01(si, tr) { return Some(v); } }
-    if o & O_C02S != 0 { if let Some(v) = oracle_c02_safety(si, tr) { return Some(v); } }
-    if o & O_C05 != 0 { if let Some(v) = oracle_c05(si, tr) { return Some(v); } }
-    if o & O_FSIZE != 0 { if let Some(v) = oracle_frame_size(tr) { return Some(v); } }
-    if o & O_C12 != 0 { if let Some(v) = oracle_c12(cfg, si, tr, o & O_C12L != 0) { return Some(v); } }
-    if o & O_C13 != 0 { if let Some(v) = oracle_c13(cfg, tr) { return Some(v); } }
-    if o & O_C20 != 0 { if let Some(v) = oracle_c20(cfg, si, tr) { return Some(v); } }
-    if o & O_C06B != 0 { if let Some(v) = crate::c06::oracle_sender_alloc(cfg, si, tr) { return Some(v); } }
-    if o & O_C04 != 0 { if let Some(v) = oracle_c04_wire(si, tr) { return Some(v); } }
-    if o & O_LIVE != 0 { if let Some(v) = oracle_c02_live(si, tr, if o & O_C11 != 0 { "C11.live" } else { "C02.live" }) { return Some(v); } }
-    None
+    let mut v: Vec<Violation> = Vec::new();
+    if o & O_C01 != 0 { v.extend(oracle_c01(si, tr)); }
+    if o & O_C02S != 0 { v.extend(oracle_c02_safety(si, tr)); }
+    if o & O_C05 != 0 { v.extend(oracle_c05(si, tr)); }
+    if o & O_FSIZE != 0 { v.extend(oracle_frame_size(tr)); }
+    if o & O_C12 != 0 { v.extend(oracle_c12(cfg, si, tr, o & O_C12L != 0)); }
+    if o & O_C13 != 0 { v.extend(oracle_c13(cfg, tr)); }
+    if o & O_C20 != 0 { v.extend(oracle_c20(cfg, si, tr)); }
+    if o & O_C06B != 0 { v.extend(crate::c06::oracle_sender_alloc(cfg, si, tr)); }
+    if o & O_C04 != 0 { v.extend(oracle_c04_wire(si, tr)); }
+    if o & O_LIVE != 0 { v.extend(oracle_c02_live(si, tr, if o & O_C11 != 0 { "C11.live" } else { "C02.live" })); }
+    v
 }
 
 /// C04 on the wire: fragments carry exactly the submitted bytes at the right offsets and are at
@@ -146,9 +147,9 @@ pub fn lw_scenario(spec: LwSpec) -> Scenario {
     let run = move |ch: &mut Chooser| -> ExecResult {
         let tr = run_lw(&spec.cfg, &spec.script, &spec.env, ch, None);
         if verbose() { print_trace(&spec.cfg, &spec.script, &tr); }
-        let violation = eval_oracles(&spec, &tr);
+        let violations = eval_oracles(&spec, &tr);
         ExecResult {
-            violation, panic: None, outcome: outcome_hash(&tr), states: state_hashes(&tr),
+            violations, panic: None, outcome: outcome_hash(&tr), states: state_hashes(&tr),
             transitions: tr.obs.iter().filter(|o| o.stepped).count() as u64 + tr.rxs.len() as u64,
             witnesses: witnesses(&spec.cfg, &spec.script, &tr),
             sample: if ch.taken.iter().any(|&c| c != 0) && ch.taken.len() % 7 == 3 { Some(render(&spec.cfg, &spec.script, ch, &tr)) } else { None },
